@@ -1221,11 +1221,49 @@ def exercise_attr(ctx: Ctx, a, src: str, text: str | None = None) -> None:
             ctx.ok(label, 'L2', (label, 'L2', sname, hx(b)))
         # ---- L3
         check_eq_pair(ctx, a, y, label, dict(wit, pair=f'{src} vs decode'))
+        attr_wire_neighbours(ctx, y, b, code, neg, label, src, sname)
         # ---- L5
         key = (label, sname, b)
         if key not in ctx.seen:
             ctx.seen.add(key)
             check_l5(ctx, label, lambda: decode_attr_bytes(b, code, neg), wit, case_id(label, sname, b))
+
+
+def attr_wire_neighbours(ctx: Ctx, y, b: bytes, code: int, neg, label: str, src: str, sname: str) -> None:
+    """every attribute one VALUE octet away from b which still decodes to the same class is held against y: equal means same
+    hash (L3).  Neighbours which compare equal although they encode differently are counted (an __eq__ which leaves a field
+    out is what makes a RIB skip a re-announcement), not judged: the property does not ask for it"""
+    k = label + '/' + type(y).__name__
+    n = ctx.neigh.get('attr:' + k, 0)
+    if n >= 2 * ctx.scale or len(b) > 96:
+        return
+    ctx.neigh['attr:' + k] = n + 1
+    head = 4 if b[0] & 0x10 else 3
+    seen = set()
+    for i in range(head, len(b)):
+        for op in range(4):
+            m = bytearray(b)
+            m[i] = (m[i] ^ 1, m[i] ^ 0x80, (m[i] + 1) & 0xFF, 0)[op]
+            mb = bytes(m)
+            if mb == b or mb in seen:
+                continue
+            seen.add(mb)
+            try:
+                y2 = decode_attr_bytes(mb, code, neg)
+                b2 = bytes(y2.pack_attribute(neg))
+            except Exception:  # noqa
+                ctx.res.count('attr-neighbour:not-decodable')
+                continue
+            if type(y2) is not type(y):
+                ctx.res.count('attr-neighbour:other')
+                continue
+            wit = {'class': label, 'type': type(y).__name__, 'source': src, 'session': sname, 'pair': f'decoded vs the same octets with octet {i} changed', 'a_bytes': hx(b), 'b_bytes': hx(mb), 'a': laws.safe_repr(y), 'b': laws.safe_repr(y2)}
+            eq = check_eq_pair(ctx, y, y2, label, wit)
+            ctx.res.count('attr-neighbour:' + ('equal' if eq else 'distinct'))
+            if eq and b2 != bytes(y.pack_attribute(neg)):
+                ctx.res.count('attr-neighbour:equal-but-encodes-differently:' + k)
+                ctx.res.extra.setdefault('equal_but_encodes_differently', {}).setdefault(k, f'{hx(b)} == {hx(mb)}')
+            ctx.res.ok('attr-neighbour', (k, i, op) if n == 0 else None)
 
 
 def attr_factory_objects(ctx: Ctx) -> list:
